@@ -262,6 +262,8 @@ func runC07(c *Ctx) {
 		}
 		schemaCall := sr.call
 		SC := sr.SC
+		// what is validated, compared with the signed data and reported is the request as it was sent
+		c.decodedRequestUnmodifiedRule("C07.G1", typ, f, sr)
 		k := typ + ":"
 		vdChk := callOrInvoke("ValidateDelta(schema.Delta)", vd, "ValidateDelta", pathIs(SC+".Delta"))
 		isOV := func(call *ssa.Call) bool {
